@@ -285,6 +285,15 @@ def routine_cases(tier):
     for nd in range(1, 6):
         for shape in itertools.product(SIZES, repeat=nd):
             yield list(shape)
+    # longer shapes over a small alphabet: several adjacent merged groups
+    # followed by untouched axes and further groups only exist from 6-7 axes
+    for nd, sizes in ((6, (1, 2, 3)), (7, (1, 2)), (8, (1, 2))):
+        if tier == "quick" and nd == 8:
+            continue
+        for k, shape in enumerate(itertools.product(sizes, repeat=nd)):
+            if tier == "quick" and k % 3:
+                continue
+            yield list(shape)
 
 
 def law_routine(ch):
@@ -332,5 +341,7 @@ LAWS = [
             "bounds, norm, magnitudes, identity; three call forms"),
     Law("routine", law_routine, kind="enum", cases=routine_cases,
         doc="calc_reshape_args: exhaustive validity of the returned plan in "
-            "both directions (47655 shape/target pairs)"),
+            "both directions (all shapes with <=5 axes of sizes {1,2,3,4,6}: "
+            "47655 shape/target pairs; plus 6 axes over {1,2,3} and 7-8 axes "
+            "over {1,2}, every third shape in the quick tier)"),
 ]
